@@ -112,10 +112,8 @@ func init() {
 		u.cross([]bool{true, false})
 		rc.cov("context_templates", map[string]any{"paths": len(u.Paths), "docs": len(u.Docs), "cases": len(u.Cases)})
 		rc.execFamily(u, "C01")
-		if rc.Tier == "thorough" {
-			if t := typesUniverse(rc); t != nil {
-				rc.execFamily(t, "C01")
-			}
+		if t := typesUniverse(rc); t != nil {
+			rc.execFamily(t, "C01")
 		}
 	}
 	checks["C05"] = func(rc *RunCtx) {
@@ -124,7 +122,12 @@ func init() {
 			rc.execFamily(u, "C05")
 		}
 	}
-	checks["C06"] = func(rc *RunCtx) { mixCheck(rc, small, mid, 20000, 300000, "C06") }
+	checks["C06"] = func(rc *RunCtx) {
+		mixCheck(rc, small, mid, 20000, 300000, "C06")
+		if u := typesUniverse(rc); u != nil {
+			rc.execFamily(u, "C06")
+		}
+	}
 	checks["C08"] = func(rc *RunCtx) {
 		mixCheck(rc, small, mid, 20000, 300000, "C08")
 		// failing step / leaking suppression templates, the failing item at every position
@@ -139,5 +142,8 @@ func init() {
 		u.cross([]bool{true, false})
 		rc.cov("leak_templates", map[string]any{"paths": len(u.Paths), "docs": len(u.Docs), "cases": len(u.Cases)})
 		rc.execFamily(u, "C08")
+		if t := typesUniverse(rc); t != nil {
+			rc.execFamily(t, "C08")
+		}
 	}
 }
